@@ -20,7 +20,7 @@ use core::borrow::Borrow;
 use core::cmp::Ordering;
 
 /// Maximum number of entries per container in the model.
-pub const CAP: usize = 2;
+pub const CAP: usize = 4;
 
 fn empty_slots<T>() -> [Option<T>; CAP] {
     core::array::from_fn(|_| None)
@@ -351,6 +351,30 @@ impl<'a, K, V> IntoIterator for &'a BTreeMap<K, V> {
     type IntoIter = Iter<'a, K, V>;
     fn into_iter(self) -> Self::IntoIter {
         self.iter()
+    }
+}
+
+/// Mutably borrowing iterator over the live slots of a map, in ascending key order.
+pub struct IterMut<'a, K, V> {
+    items: core::slice::IterMut<'a, Option<(K, V)>>,
+}
+
+impl<'a, K, V> Iterator for IterMut<'a, K, V> {
+    type Item = (&'a K, &'a mut V);
+    fn next(&mut self) -> Option<Self::Item> {
+        let e = slot_mut(self.items.next()?);
+        Some((&e.0, &mut e.1))
+    }
+}
+
+impl<'a, K, V> IntoIterator for &'a mut BTreeMap<K, V> {
+    type Item = (&'a K, &'a mut V);
+    type IntoIter = IterMut<'a, K, V>;
+    fn into_iter(self) -> Self::IntoIter {
+        let len = self.len;
+        IterMut {
+            items: self.items[..len].iter_mut(),
+        }
     }
 }
 
